@@ -2609,7 +2609,7 @@ lyd_merge_sibling_r(struct lyd_node **first_trg, struct lyd_node *parent_trg,
             }
         }
 
-        if (lyds->rbn) {
+        if (lyds->rbn && lyds_is_supported(dup_src)) {
             /* insert node and try to reuse free lyds data */
             lyds_insert2(parent_trg, first_trg, leader_p, dup_src, lyds);
         } else {
